@@ -172,6 +172,7 @@ func minimise(s *Scenario, test func(*Scenario) bool, maxTests int, deadline tim
 			func(r *ReaderScn) { r.Rich = false },
 			func(r *ReaderScn) { r.Consumer = "" },
 			func(r *ReaderScn) { r.Std = "" },
+			func(r *ReaderScn) { r.GC, r.GCEvery = "", 0 },
 			func(r *ReaderScn) { r.Terminal = "separate" },
 			func(r *ReaderScn) { r.Fault.WithData = false },
 			func(r *ReaderScn) {
